@@ -167,7 +167,9 @@ def r_open(ctx):
                 if v == 'MissingMetadata' and e[0] == 'disc':
                     g = _calls_in(e[1], 'heed::Database::<KC, DC, C, CDUP>::get')
                     okor = _calls_in(e[1], 'Option::<T>::ok_or')
-                    if g and (key_info(g[0][2][2]) or (None,))[0] == 'metadata' and ((0 in e[2] and not okor) or (okor and 1 in e[2])):
+                    listed = [int(vv) for vv, tt in paths.switch_at(f, s)['targets']]
+                    none_edge = (0 in e[2]) or (e[3] and 0 not in listed and 1 in listed)   # `None` arm, or the `else` of a let-else
+                    if g and (key_info(g[0][2][2]) or (None,))[0] == 'metadata' and ((none_edge and not okor) or (okor and 1 in e[2])):
                         # `match get(..)? { None => Err(..) }` (None arm) or `get(..)?.ok_or(Err(..))?` (Break arm of the `?`)
                         good = all(f.dominates(s, o) for o in okb)
                         why = 'absence of get(Key::metadata(index))'
